@@ -54,4 +54,36 @@ def Emu.connect (e : Emu) (id : Nat) (a : ConnActivity) : Emu :=
 /-- the port is free again once the listener is closed -/
 def portFree (running : List Emu) (port : Nat) : Bool := running.all fun e => !(e.port == port && e.listening)
 
+/-! ### termination against connections that are being accepted
+
+`RequestTermination` closes the listener and walks the client table under the table's lock, so the walk is one
+step with respect to registrations. A connection the kernel accepted just before the listener was closed is
+registered AFTER the walk; `checkLate = true` is the repaired behaviour (D87, 75ebc90): the registration looks at
+the termination mark and closes the connection at once. -/
+
+inductive LEv where
+  | acceptBegin (id : Nat)       -- the accept loop takes a connection off the listener
+  | register (id : Nat)          -- … and enters it into the client table
+  | clientCloses (id : Nat)      -- the peer hangs up; the connection leaves the table
+  | terminate
+  deriving Repr, DecidableEq
+
+structure LState where
+  listening : Bool := true
+  terminated : Bool := false
+  inFlight : List Nat := []       -- accepted, not yet registered
+  table : List (Nat × Bool) := [] -- registered connections: (id, open)
+  deriving Repr, DecidableEq
+
+def lstep (checkLate : Bool) (s : LState) : LEv → LState
+  | .acceptBegin id => if s.listening then { s with inFlight := s.inFlight ++ [id] } else s
+  | .register id =>
+    if s.inFlight.contains id then
+      { s with inFlight := s.inFlight.erase id, table := s.table ++ [(id, !(checkLate && s.terminated))] }
+    else s
+  | .clientCloses id => { s with table := s.table.filter fun c => c.1 != id }
+  | .terminate => { s with listening := false, terminated := true, table := s.table.map fun c => (c.1, false) }
+
+def lrun (checkLate : Bool) (s : LState) (evs : List LEv) : LState := evs.foldl (lstep checkLate) s
+
 end RedisEmu
